@@ -146,7 +146,10 @@ structure TState where
   pending : List Int
   /-- the tick channel (buffer of capacity `tickChanCap`) -/
   chan : List Int
+  /-- a call panicked while holding `t.m`: the mutex stays locked, nothing can happen any more -/
   panicked : Bool
+  /-- the call of the last label panicked (validation panics leave the ticker untouched) -/
+  lastPanic : Bool
   /-- a critical section is no longer bracketed by the mutex: the model's atomic steps are unjustified -/
   unmodelled : Bool
   /-- ghost: ticks put into the channel, newest first: (timestamp, `d - jitter` in force) -/
@@ -169,7 +172,7 @@ possible value. -/
 def schedule (s : TState) (r : Int) : Option TState :=
   let orph := if schedStopsOld then s.orphans else s.timer.toList ++ s.orphans
   let bound := schedRandBound s.jitter
-  if bound ≤ 0 then some { s with panicked := true, timer := none, orphans := orph }
+  if bound ≤ 0 then some { s with panicked := true, lastPanic := true, timer := none, orphans := orph }
   else if r < 0 ∨ bound ≤ r then none
   else
     let gen' := s.gen + schedBumpsGen
@@ -182,9 +185,10 @@ def schedule (s : TState) (r : Int) : Option TState :=
 def create (now d j r : Int) : Option TState :=
   let s0 : TState :=
     { now := now, d := d, jitter := j, gen := 0, hasTimer := false, timer := none,
-      orphans := [], pending := [], chan := [], panicked := false, unmodelled := !newLocked, sent := [],
+      orphans := [], pending := [], chan := [], panicked := false, lastPanic := false,
+      unmodelled := !newLocked, sent := [],
       stopped := false }
-  if newPanicsD d j || newPanicsJ d j then (if r = 0 then some { s0 with panicked := true } else none)
+  if newPanicsD d j || newPanicsJ d j then (if r = 0 then some { s0 with panicked := true, lastPanic := true } else none)
   else schedule s0 r
 
 /-- The non-blocking send of the callback. `none`: the goroutine blocks forever (no `default`). -/
@@ -194,8 +198,9 @@ def cbSend (s : TState) : Option TState :=
   else if cbSelect.contains .dflt then some s
   else none
 
-def tstep (s : TState) (l : TLabel) : Option TState :=
-  if s.panicked then none else
+def tstep (s0 : TState) (l : TLabel) : Option TState :=
+  if s0.panicked then none else
+  let s := { s0 with lastPanic := false }
   match l with
   | .advance dt => if 0 ≤ dt then some { s with now := s.now + dt } else none
   | .fire 0 =>
@@ -221,10 +226,10 @@ def tstep (s : TState) (l : TLabel) : Option TState :=
     | _ :: rest => some { s with chan := rest }
     | [] => none
   | .reset d j r =>
-    if resetPanicsD d j || resetPanicsJ d j then (if r = 0 then some { s with panicked := true } else none)
+    if resetPanicsD d j || resetPanicsJ d j then (if r = 0 then some { s with lastPanic := true } else none)
     else schedule { s with d := d, jitter := j, stopped := false, unmodelled := s.unmodelled || !resetLocked } r
   | .stop =>
-    if stopStopsTimer && !s.hasTimer then some { s with panicked := true }
+    if stopStopsTimer && !s.hasTimer then some { s with panicked := true, lastPanic := true }
     else some { s with
       timer := none,
       orphans := if stopStopsTimer then s.orphans else s.timer.toList ++ s.orphans,
@@ -268,15 +273,23 @@ def isQuiescent (s : TState) : Bool := (internalSucc s).isEmpty
 def nextDue (s : TState) : Option Int :=
   ((s.timer.toList ++ s.orphans).map (·.due)).foldl (fun acc x => match acc with | none => some x | some a => some (min a x)) none
 
+/-- minimum of a list of instants -/
+def minOf : List Int → Option Int
+  | [] => none
+  | x :: xs => some (xs.foldl min x)
+
 /-- Virtual time: let the clock run to `target`; before it moves, everything runnable has run.
-The result states are at `target` with the timers due exactly at `target` not yet fired. -/
-def advanceTo (fuel : Nat) (target : Int) (s : TState) : List TState :=
+All states of the set share `now`. The result states are at `target`, with the timers due exactly at
+`target` not yet fired. `fuel` bounds the number of distinct firing instants. -/
+def advanceTo (fuel : Nat) (target : Int) (S : List TState) : List TState :=
   match fuel with
   | 0 => []
   | fuel + 1 =>
-    ((internalReach 4000 [s] []).filter isQuiescent).flatMap fun q =>
-      match nextDue q with
-      | some t => if t < target then advanceTo fuel target { q with now := max t q.now } else [{ q with now := max target q.now }]
-      | none => [{ q with now := max target q.now }]
+    let Q := ((internalReach 100000 S []).filter isQuiescent).eraseDups
+    match minOf (Q.filterMap nextDue) with
+    | some t =>
+      if t < target then advanceTo fuel target (Q.map fun q => { q with now := max t q.now })
+      else Q.map fun q => { q with now := max target q.now }
+    | none => Q.map fun q => { q with now := max target q.now }
 
 end Juniper.Model.XTime
